@@ -234,14 +234,27 @@ func Cuts(rt *rapid.T, n int, allowEmpty bool) []int {
 	sort.Ints(cuts)
 	if !allowEmpty {
 		cuts = dedup(cuts)
-	} else if len(cuts) > 0 && rapid.IntRange(0, 3).Draw(rt, "empty?") == 0 {
-		// duplicate a cut (empty packet in the middle) or add one at the end (empty EOM packet)
-		if rapid.Bool().Draw(rt, "emptyatend") {
-			cuts = append(cuts, n)
-		} else {
-			i := rapid.IntRange(0, len(cuts)-1).Draw(rt, "dup")
-			cuts = append(cuts[:i+1], cuts[i:]...)
+	} else if rapid.IntRange(0, 3).Draw(rt, "empty?") == 0 {
+		// empty bodies (header-only packets): 1..3 of them, in the middle (a duplicated cut),
+		// at the very beginning, or at the end (one or several empty packets, the last one
+		// carrying EOM), possibly several in a row
+		k := rapid.IntRange(1, 3).Draw(rt, "nempty")
+		for j := 0; j < k; j++ {
+			switch rapid.IntRange(0, 3).Draw(rt, "emptywhere") {
+			case 0:
+				cuts = append(cuts, n)
+			case 1:
+				cuts = append([]int{0}, cuts...)
+			default:
+				if len(cuts) == 0 {
+					cuts = append(cuts, n)
+				} else {
+					i := rapid.IntRange(0, len(cuts)-1).Draw(rt, "dup")
+					cuts = append(cuts[:i+1], cuts[i:]...)
+				}
+			}
 		}
+		sort.Ints(cuts)
 	}
 	return cuts
 }
